@@ -120,7 +120,7 @@ PROPS.update({
         "assumptions": U1_ASSUME + ["#[derive(Default)] on SuffixDict yields count == 0 and index == 0 (assumed specification of the derived impl)",
                                      "units with iterator client loops are verified with --no-lifetime"],
         "level_text": "(F1) representation invariant of the suffix dictionary, (F2) insert against the abstract view (hit: some live entry equals the suffix up to ASCII case, nothing changes; miss: exactly slot `index` is replaced, every other slot untouched), (F3) the offset remembered for a suffix is its position in the OUTPUT, (F4) what the name emitter appends is whole labels followed by nothing or one pointer below 0x4000 that stands for at least 3 bytes, (F5) a compressed name/record/packet is never longer than the original, (F6) every record of every section is re-emitted, OPT included, (F7) the RDLENGTH written back equals the data bytes emitted, (F8) 'every pointer it emits designates, in the output, the suffix it stands for': the invariant dict_ok (every live dictionary entry designates, in the output, a valid name equal to its suffix up to ASCII case) holds from SuffixDict::new() to the end of compress(): the name emitter keeps it (pending-entry invariant of its loop; a hit can only be an entry that was faithful at entry), Compress::indirections is proved to return exactly the number of pointers the parser follows, appends keep it (walk transport lemma), and so does the RDLENGTH fix-up of compress_rdata (no name designated by the dictionary reads those two bytes: window lemmas of spec/ptr.rs); consequently every name compress() writes -- question, owner names, NS/CNAME/PTR/MX targets, both SOA names -- is asserted, at the place it is emitted, to be valid under the parser's name rule (at most 16 pointers, strictly backward, at most 255 bytes) and to decode in the output to the input name up to ASCII case; (F9) 'compression succeeds and returns an accepted packet': compress(p).is_ok() <==> wf_packet(p), and r matches Ok(c) ==> wf_packet(c) -- every record written is proved to be a record the parser accepts (compress_rdata: out_rdata per record type, incl. the verbatim option list of OPT and the pointer-free name of DNAME; lemma_out_record), the sections are assembled record by record (lemma_rrs_append, stability under growth: lemma_rr_spec_ext / lemma_rrs_ext), OPT at most once with a one-byte root owner, question class and header policy from the copied header (lemma_accept); the header is copied; (F10) 'whose header, record sequence (including any OPT record and its options) and record contents equal the input's, names being equal up to ASCII case': r matches Ok(c) ==> msg_ci(c, p) (spec/cacc.rs) -- header bytes equal; question name equal up to case, type and class byte for byte; then, section by section at the sections' starts as the reader computes them (sec_start of the output against sec_start of the input) and record by record in order (recs_ci), owner name equal up to case, type/class/TTL byte for byte, and the data: the target name of NS/CNAME/PTR, preference and exchange of MX, both names and the twenty fixed bytes of SOA, and for every other type (OPT and its option list, A, AAAA, DNAME, opaque) RDLENGTH and data byte for byte (compress_rdata: rd_ci per arm; stability of already written records under growth: lemma_rec_ci_ext / lemma_recs_ci_ext; assembly lemma_recs_ci_append / lemma_msg_ci). (F11) 'and the question name byte-identical': a name that meets an empty dictionary is written out in full (the name emitter cannot hit one of its own, longer, suffixes: loop invariant on the lengths of the entries), so compress() copies header and question byte for byte: c[0..q_end(p)) == p[0..q_end(p)); (F12) 'decompressing the result gives back the input up to name case': theorem_c06_roundtrip (spec/crt.rs) -- for accepted c carrying the message of the accepted pointer-free p, uncompress_spec(c) is accepted, pointer-free, exactly as long as p and carries p's message (both being pointer-free: equal bytes up to the case of letters inside names); record level lemma_un_rd_ci / lemma_un_rec_ci per record type, runs lemma_un_recs_ci, sections lemma_c06_section -- and the verified client client_compress_roundtrip (spec/clients_u7.rs, not repo code) composes the two REAL functions by their contracts: Compress::uncompress(Compress::compress(p)) succeeds and returns exactly that. Every clause of the statement is now a proved postcondition; the differential replay (compress, re-parse, compare, decompress) remains as the witness search for failing obligations",
-        "technique": "Verus data-structure invariant + view-based postconditions for the dictionary; frame/length/count contracts for the emitter and the section loops; remaining clauses by differential replay (stated)",
+        "technique": "Verus data-structure invariant + view-based postconditions for the dictionary; frame/length/count contracts for the emitter and the section loops; message-preservation relation msg_ci and accepted-output as postconditions of compress(); round-trip theorem over the contracts of compress and uncompress (verified client); differential replay only as witness search",
     },
     "C07": {
         "title": "Renaming rewrites exactly the matching names and nothing else",
@@ -132,7 +132,7 @@ PROPS.update({
                         "on an Err exit taken while an iterator is still alive, 'the packet object is unchanged' is not stated (Verus does not resolve the prophecy of the live iterator at a `?` exit); it is stated for Ok exits",
                         "units with iterator client loops are verified with --no-lifetime"],
         "level_text": "replace_raw is proved EQUAL to replace_spec (label-aligned, case-insensitive exact/suffix match; result = kept labels ++ target; TooLong exactly when the result would exceed 255) for all well-formed names; copy_with_replaced_name fails exactly when replace_spec is TooLong and otherwise appends the compressed form (whole labels + at most one pointer) of the rewritten -- or, without a match, the original -- expanded name, which is again a clean name; F8 for the renamer (see C06): the invariant dict_ok holds from SuffixDict::new() to the end of Renamer::rename_with_raw_names, across every section walk and every RDLENGTH fix-up (window lemmas), so every name the renamer writes -- question, owner names, NS/CNAME/PTR/MX targets, both SOA names -- is valid under the parser's name rule and decodes, in the output, to renamed_name(expanded input name) == the rewritten name or, without a match, the original, up to ASCII case; every name-bearing record type writes RDLENGTH == bytes appended after the 10-byte header (one obligation per arm: NS/CNAME/PTR, MX, SOA); the OPT record is copied by the generic arm in place; the section walks only read the packet object; header copied. F9 for the renamer, 'renaming returns an accepted packet': r matches Ok(v) && wf_packet(input) ==> wf_packet(v) -- every record written is proved to be one the parser accepts in its section (rename_response_section: out_rdata per arm -- one valid name ending the record for NS/CNAME/PTR, preference + name for MX, two names + twenty bytes for SOA, verbatim data for the rest incl. the option list of OPT and the pointer-free name of DNAME; the OPT owner is the root name, which no non-root source matches, so it is written as its single byte), sections assembled record by record (rrs of the output per section, stability under growth), question = valid name + the input's four fixed bytes (q_written), policy clauses from the copied header (lemma_accept). F10 for the renamer, 'every name that equals the source (or ends with it on a label boundary) has that part replaced by the target, while every other name, the header, the counts, record order, types, classes, TTLs, opaque data and the OPT record are unchanged up to name case': r matches Ok(v) && wf_packet(input) ==> msg_ren(v, input, target, source, suffix) (spec/racc.rs) -- header byte for byte; question name == renamed_name(expanded input name) up to case, type/class byte for byte; then section by section (at the sections' starts as the reader computes them in both packets) and record by record in order (recs_ren): owner name, the target of NS/CNAME/PTR, the exchange of MX and both SOA names each equal, up to case, to renamed_name of the input's expanded name -- renamed_name being replace_spec's rewritten name on a match and the name itself otherwise -- and type/class/TTL, MX preference, the twenty SOA bytes, and for every other type (OPT and its options included) RDLENGTH and data byte for byte. 'renaming a name to itself leaves the message unchanged': lemma_rename_identity -- with target == source renamed_name(n) equals n up to ASCII case for every name of at most 255 bytes and the TooLong case cannot arise, so every name clause of msg_ren reads 'equal to the input's expanded name up to case' (name-level lemma; the message-level restatement is msg_ren itself). F11, the packet-level wrapper ParsedPacket::rename_with_raw_names (observe_at): on success the packet object satisfies its invariant again for the renamed bytes (final(self).wf()), those bytes are accepted and carry the renamed message (msg_ren), the object is marked possibly-compressed with the question cache dropped, and the wrapper's four assert_eq! on the EDNS summary are discharged as proof obligations (lemma_ren_opt_at / lemma_ren_edns: corresponding runs have their OPT record at the same index with the same fixed fields and option list), and the re-parse cannot fail. F12 'when a rewritten name would exceed 255 bytes the call fails instead of producing a packet' and failure atomicity (C10): copy_with_replaced_name fails exactly on TooLong; the renamer and all its section walks leave the packet object untouched whether they succeed or fail (*final == *old unconditionally: the walks only read), and the wrapper returns Err only from the renamer (the re-parse of an accepted output cannot fail), so r.is_err() ==> *final(self) == *old(self)",
-        "technique": "Verus functional contract of replace_raw against a spec function + per-record bookkeeping obligations on the extracted renamer; remaining clauses by differential replay (stated)",
+        "technique": "Verus functional contract of replace_raw against a spec function + per-record obligations on the extracted renamer; renamed-message relation msg_ren and accepted-output as postconditions of the renamer and of ParsedPacket::rename_with_raw_names; failure leaves the object untouched; differential replay only as witness search",
     },
     "C13": {
         "title": "Record text synthesises to the right wire record; bad text is an error",
